@@ -67,7 +67,7 @@ const char* const probe_names[PR__COUNT] = {
 // ---------------------------------------------------------------------------------
 enum VState { VS_UNUSED = 0, VS_RUNNABLE, VS_BLOCKED, VS_DONE };
 enum BlockKind { BK_NONE = 0, BK_LOCK, BK_JOIN, BK_BARRIER, BK_WAIT };
-#define MAX_VT 64
+#define MAX_VT 200
 
 struct VThread {
   int       idx;
